@@ -139,6 +139,7 @@ fn short_loc(s: &str) -> String {
 /// Runs one case with panic capture. A panic anywhere is a failure whose signature names the
 /// panic site (file:line), so distinct panics are distinct findings.
 pub fn run_case<P: Prop>(case: &P::Case) -> Outcome {
+    let _guard = CaseGuard::set(case);
     let mut o = Outcome::default();
     LAST_PANIC.with(|p| *p.borrow_mut() = None);
     let r = catch_unwind(AssertUnwindSafe(|| P::run(case, &mut o)));
@@ -156,6 +157,67 @@ pub fn run_case<P: Prop>(case: &P::Case) -> Outcome {
         }
     }
     o
+}
+
+
+// ---------------------------------------------------------------- process-abort reporter
+// A change to tonic may make the *process* die (e.g. an absurd allocation -> alloc error -> abort), which
+// no catch_unwind can see. Each shard publishes a pointer to the case it is running; a SIGABRT handler
+// serialises that case into a replay file and prints the VIOLATION line before exiting with status 1.
+// (Not async-signal-safe in the strict sense; the process is dying anyway and the worst outcome is the
+// old behaviour: a non-zero exit without a VIOLATION line.)
+thread_local! {
+    static CUR_CASE: std::cell::Cell<Option<(*const (), fn(*const ()) -> String)>> = const { std::cell::Cell::new(None) };
+}
+static CRASH_ID: std::sync::OnceLock<&'static str> = std::sync::OnceLock::new();
+
+extern "C" {
+    fn signal(signum: i32, handler: usize) -> usize;
+    fn _exit(code: i32) -> !;
+}
+
+extern "C" fn on_abort(_sig: i32) {
+    let id = CRASH_ID.get().copied().unwrap_or("C??");
+    let case = CUR_CASE.try_with(|c| c.get()).ok().flatten();
+    if let Some((ptr, ser)) = case {
+        let json = ser(ptr);
+        let dir = format!("{}/replays/{}", verif_root(), id);
+        let _ = std::fs::create_dir_all(&dir);
+        let path = format!("{}/abort-{:016x}.json", dir, fnv64(json.as_bytes()));
+        let _ = std::fs::write(&path, json);
+        println!("signature: {}/process-abort", id);
+        println!("detail: the process aborted (SIGABRT: allocation failure, double panic or abort()) while running the saved case");
+        println!("VIOLATION property={} replay={}", id, path);
+        use std::io::Write;
+        let _ = std::io::stdout().flush();
+        unsafe { _exit(1) }
+    }
+    unsafe { _exit(134) }
+}
+
+pub fn install_abort_reporter(id: &'static str) {
+    let _ = CRASH_ID.set(id);
+    unsafe {
+        signal(6, on_abort as usize);
+    }
+}
+
+fn ser_case<C: Serialize>(p: *const ()) -> String {
+    let c: &C = unsafe { &*(p as *const C) };
+    serde_json::to_string_pretty(c).unwrap_or_else(|_| "null".into())
+}
+
+struct CaseGuard;
+impl CaseGuard {
+    fn set<C: Serialize>(c: &C) -> CaseGuard {
+        CUR_CASE.with(|cell| cell.set(Some((c as *const C as *const (), ser_case::<C> as fn(*const ()) -> String))));
+        CaseGuard
+    }
+}
+impl Drop for CaseGuard {
+    fn drop(&mut self) {
+        CUR_CASE.with(|cell| cell.set(None));
+    }
 }
 
 pub fn fnv64(data: &[u8]) -> u64 {
@@ -312,6 +374,7 @@ fn is_known(known: &[KnownEntry], sig: &str) -> bool {
 pub static CURRENT: Mutex<Vec<(u64, String)>> = Mutex::new(Vec::new());
 
 pub fn run_prop<P: Prop>(tier: Tier, seed: u64) -> RunResult {
+    install_abort_reporter(P::ID);
     let t0 = Instant::now();
     let known = Arc::new(load_known(P::ID));
     let mut total = Stats::default();
@@ -601,6 +664,7 @@ pub fn report<P: Prop>(tier: Tier, seed: u64, r: &RunResult) -> i32 {
 }
 
 pub fn replay<P: Prop>(path: &str) -> i32 {
+    install_abort_reporter(P::ID);
     let case: Option<P::Case> = if path.ends_with(".json") {
         std::fs::read_to_string(path)
             .ok()
